@@ -209,6 +209,66 @@ class Checker:
         return problems
 
 
+# Indexes around INT_MAX.  A bitmap holding bit 2^31-1 needs 2^25 words (256 MB): far beyond what the
+# extracted model (lists indexed by Peano naturals) can execute, so these few cases run on the C code only
+# and are compared with hand-written expected return values (the BSet spec evaluated by hand).  The int
+# return type cannot represent an index or a weight above INT_MAX: cases whose true result is above
+# INT_MAX are outside the property (expected = None: only "no sanitizer report" is required of them).
+INT_MAX = 2147483647
+BIG_CASES = [
+    ("quick", "int-max-bit", [
+        ("set 0 2147483647", "0"), ("last 0", "2147483647"), ("first 0", "2147483647"), ("weight 0", "1"),
+        ("next 0 -1", "2147483647"), ("next 0 2147483646", "2147483647"), ("isset 0 2147483647", "1"),
+        ("isset 0 2147483646", "0"), ("nr 0", "33554432"), ("nextu 0 -1", "0"),
+        ("next 0 2147483647", "-1"),          # what a foreach loop calls after having returned INT_MAX
+        ("lastu 0", "-1"), ("iszero 0", "0"), ("clr 0 2147483647", "0"), ("iszero 0", "1"), ("last 0", "-1")]),
+    ("thorough", "top-range", [
+        ("setr 0 2147483500 2147483647", "0"), ("weight 0", "148"), ("first 0", "2147483500"), ("last 0", "2147483647"),
+        ("next 0 2147483583", "2147483584"), ("next 0 2147483646", "2147483647"), ("nextu 0 2147483499", None),
+        ("setr 1 2147483583 -1", "0"), ("first 1", "2147483583"), ("last 1", "-1"), ("lastu 1", "2147483582"),
+        ("isincl 0 1", "0"), ("inter 0 1", "1"), ("and 2 0 1", "0"), ("first 2", "2147483583"), ("last 2", "2147483647"),
+        ("weight 2", "65"), ("cmp 0 1", "-1"), ("cmpf 0 1", "-1"), ("cmpi 0 1", "3"),
+        ("next 1 2147483647", None)]),       # true answer 2^31: not representable
+    ("thorough", "above-int-max", [           # outside the property: only robustness (no UB) and the non-index queries
+        ("set 0 2147483648", "0"), ("isset 0 2147483648", "1"), ("weight 0", "1"), ("iszero 0", "0"),
+        ("last 0", None), ("first 0", None), ("next 0 -1", None), ("nr 0", None),
+        ("set 1 4294967000", "0"), ("isset 1 4294967000", "1"), ("isset 1 4294966999", "0"), ("weight 1", "1"),
+        ("last 1", None), ("first 1", None), ("isincl 0 1", "0"), ("inter 0 1", "0"), ("isequal 0 1", "0"),
+        ("or 2 0 1", "0"), ("weight 2", "2"), ("clr 2 2147483648", "0"), ("isequal 2 1", "1")]),
+]
+
+
+def check_big_indexes(run, t, thorough):
+    observed = {}
+    for tier, name, steps in BIG_CASES:
+        if tier == "thorough" and not thorough:
+            continue
+        lines = [op for op, _ in steps]
+        path = os.path.join(t.tmp, "big-%s.txt" % name)
+        with open(path, "w") as f:
+            f.write("\n".join(lines) + "\n")
+        rc, oc, ec = C.sh([t.exe, path], env=t.env, timeout=900)
+        out = oc.decode(errors="replace").split("\n")[:-1]
+        body = "kind: input\ncase:\n%s\n\nimpl:\n%s\n\nexpected:\n%s\n\nstderr:\n%s\n" % (
+            "\n".join(lines), "\n".join(out), "\n".join("%s -> %s" % s_ for s_ in steps), ec.decode(errors="replace")[-3000:])
+        for (op, exp), got in zip(steps, out):
+            run.bump("big-index-op")
+            m = re.match(r"R=(\S+)", got)
+            r = m.group(1) if m else got
+            if exp is None:
+                observed["%s: %s" % (name, op)] = r
+            elif r != exp:
+                run.violation("bigidx:%s:%s" % (name, op.replace(" ", "-")),
+                              "hwloc_bitmap %s on a bitmap with indexes near INT_MAX returned %s, expected %s" % (op, r, exp), body)
+        if rc != 0:
+            op = lines[len(out)] if len(out) < len(lines) else "exit"
+            first = next((l for l in ec.decode(errors="replace").split("\n") if "runtime error" in l or "ERROR" in l), "rc=%d" % rc)
+            run.violation("bigidx:%s:sanitizer:%s" % (name, op.replace(" ", "-")),
+                          "C harness died (rc=%d) in %s: %s" % (rc, op, first.strip()), body)
+    run.cov["big_index_cases"] = [n for tr, n, _ in BIG_CASES if tr == "quick" or thorough]
+    run.cov["big_index_outside_observed"] = observed
+
+
 def read_case_file(path):
     ls = []
     for l in open(path):
@@ -236,7 +296,7 @@ def check(run, replay=None):
     ck = Checker(run, t)
     trusted = [
         "ENOMEM paths are outside: the allocator always succeeds in the harness, the model has no failure branch",
-        "indexes >= 2^31-64 (C int overflow in the int-returning queries) are excluded by hypothesis in the theorems and never generated",
+        "theorems cover indexes < 2^31-64 (word count <= 2^25-1, explicit hypotheses IDXMAX / wf); the remaining indexes up to INT_MAX are checked on the C code only by a handful of hand-evaluated cases (256 MB bitmaps, not executable by the model); indexes, weights and results above INT_MAX are outside the property: the int return type cannot represent them (observed values recorded in big_index_outside_observed, only the absence of sanitizer reports is required)",
         "hwloc_ffsl (__builtin_ffsl) and hwloc_weight_long (__builtin_popcountll) are modelled by their specifications (ctz+1 / popcount) and validated against the compiled functions by the leaf sweep (all single bits, all pairs of bits, prefix/suffix masks, random words); hwloc_flsl (= hwloc_flsl_manual in this configuration) is modelled statement by statement and proved equal to N.size (flsl_manual_is_size), and swept too",
         "aliasing (res==op1, res==op2, op1==op2) is covered by differential execution against the functional model, not by a store-level proof",
         "gcc -O1 -fsanitize=address,undefined build of hwloc/bitmap.c included textually in harness/hwv_bitmap.c",
@@ -276,6 +336,9 @@ def check(run, replay=None):
     for case in [["set 0 70", "fromuls 0 0", "iszero 0", "first 0", "nr 0", "toul 0"]]:
         ck.check_lines(["reset"] + case, model=False)
         run.bump("malformed-case")
+
+    # 2b. indexes around INT_MAX (C only, hand-written expectations)
+    check_big_indexes(run, t, thorough)
 
     # 3. leaf functions of misc.h
     ws = G.leaf_words(rng, 20000 if thorough else 2000)
